@@ -41,7 +41,7 @@ def produce(doc, fmt, dest, scratch):
         b = io.BytesIO()
         doc.serialize(b, format=fmt)
         return b.getvalue()
-    p = os.path.join(scratch, "out_%s.%s" % (fmt, fmt))
+    p = os.path.join(scratch, "out #1?x;y_%s.%s" % (fmt, fmt))      # characters that are URL syntax
     # the destination exists already and holds a longer file (a previous, larger save to the same path)
     with open(p, "wb") as fh:
         fh.write(b"x" * 400000)
@@ -100,7 +100,7 @@ def run_doc(doc, scratch, idx):
         for dest, art in arts.items():
             as_text = art if isinstance(art, str) else art.decode("utf-8")
             as_bytes = art if isinstance(art, bytes) else art.encode("utf-8")
-            p = os.path.join(scratch, "src_%s_%s.%s" % (fmt, dest, fmt))
+            p = os.path.join(scratch, "src #2?q;r_%s_%s.%s" % (fmt, dest, fmt))
             with open(p, "wb") as fh:
                 fh.write(as_bytes)
             sources = {
